@@ -264,7 +264,7 @@ func (x *Exec) checkPost(st *St, fr *Frame, v *Val, names map[string]*Val) {
 		}
 	}
 	x.assertWF(st, "exit", "")
-	if x.ncanary < 12 {
+	if x.ncanary < 64 {
 		x.ncanary++
 		x.Obls = append(x.Obls, &Obligation{Name: fi.Key + "/canary#exit", Func: fi.Key, Kind: "canary", Label: "exit", Canary: true,
 			Hyps: append([]*Term(nil), st.pc...), Goal: False, Clause: "hypotheses at the first exit are consistent", Trace: st.trace})
@@ -410,7 +410,7 @@ func (w *World) ContractedFuncs() []string {
 				if c.Flags["helper"] && !c.Flags["verify"] && len(c.Ensures) == 0 {
 					continue
 				}
-				if c.Flags["assumed"] {
+				if c.Flags["assumed"] || c.Flags["opaque"] {
 					continue
 				}
 				out = append(out, c.Key)
